@@ -68,10 +68,16 @@ def run(ctx):
         finite = sorted(d for d in exhaustive if not math.isinf(d))
         r0 = rng.random()
         small = [0.02, 0.05] if not float(opts.get("penalty", 0)).is_integer() else []     # just above a near-copy
+        # thresholds exactly ON a candidate's distance (only distances that are integers: their square is exact, so the
+        # comparison in the internal representation cannot round to the other side): such a candidate is admissible
+        exact_d = [d for d in finite if float(d).is_integer() and d > 0]
         if finite and r0 < 0.3:
             md = rng.choice(finite) + rng.choice([0.25, -0.25, 3.0] + small + small)
             if md <= 0:
                 md = None
+            if exact_d and rng.random() < 0.4:
+                md = float(rng.choice(exact_d))
+                res.hit("threshold_exactly_on_a_distance")
         elif finite and r0 < (0.4 if not small else 0.6):
             mv = (rng.choice(finite) + rng.choice([0.25] + small + small)) / len(qa)
         # a threshold given through dists_options: used when the max_dist argument is absent, combined with max_value
